@@ -650,8 +650,12 @@ class Reaction(Object):
             try:
                 was_listed = self in g._reaction
                 self._dissociate_gene(g)
-                if context and was_listed:
-                    context(partial(self._associate_gene, g))
+                if context:
+                    if was_listed:
+                        context(partial(self._associate_gene, g))
+                    else:
+                        # only the reaction's own set of genes changed
+                        context(lambda g=g: self._genes.add(g))
             except KeyError:
                 warn(f"could not remove old gene {g.id} from reaction {self.id}")
             if g in self._genes:  # if an old gene is still a new gene
